@@ -111,10 +111,12 @@ def run(ctx):
     # LOOP
     loop_ledger = {r["key"]: r for r in ctx.table("loop_ledger.json")["rows"]}
     n_loops = 0
+    from facts import is_private_helper
     for fid in sorted(reach):
         fn = F.fns[fid]
-        if not fn.blocks:
-            continue
+        if not fn.blocks or is_private_helper(fn):
+            continue                      # a private helper's loops are seen in the bodies it is inlined into
+        fn = F.inlined(fn)
         for (kind, bound, line, bb, bop) in L.loop_bounds(F, fn):
             n_loops += 1
             bad = L.unguarded_subs(F, fn, bound, bop)
@@ -123,7 +125,10 @@ def run(ctx):
                             "loop bound `%s` contains `%s`, a subtraction on a request-derived integer that no controlling comparison proves "
                             "non-negative: with overflow-checks off it wraps to ~2^64 iterations (debug builds panic)" % (show(bound)[:100], show(st)[:80]))
             if L.proportional(fn, bound):
-                key = "%s|%s" % (fn.name, re.sub(r"_\d+", "_", show(bound))[:80])
+                # key: the function and the request parameters the trip count is taken from (not the expression's spelling)
+                from terms import leaves as _leaves
+                pnames = sorted({str(x[1]) for x in _leaves(bound) if x[0] in ("param", "upvar")})
+                key = "%s|%s" % (re.sub(r"(::\{closure#\d+\})+$", "", fn.name), ",".join(pnames))
                 row = loop_ledger.get(key)
                 R.ob(row is not None, "LOOP", "%s:%s" % (fn.loc["f"], line), "LOOP|proportional|" + key,
                      "loop trip count `%s` is a request integer used as given; not a reviewed row of tables/loop_ledger.json" % show(bound)[:100],
